@@ -19,6 +19,18 @@ static void cc_native_fail(const char* m){ fprintf(stderr,"OBLIGATION-FAILED: %s
 
 #define CC_SRC_ASSERT(c) __CPROVER_assert((c), "source-level assert()")
 #define CC_THROWS(c,m)   __CPROVER_assert((c), m)
+/* capacity of the container model: by default exceeding it is reported (the check's bound is too small);
+   with -DCC_CAP_ASSUME paths that outgrow the model are cut instead (for code that grows a container without bound) */
+#ifdef CC_SIZE_INV
+#define CC_SIZE_INV_ASSUME(c) __CPROVER_assume(c)
+#else
+#define CC_SIZE_INV_ASSUME(c) ((void)0)
+#endif
+#ifdef CC_CAP_ASSUME
+#define CC_CAP_CHECK(c) __CPROVER_assume(c)
+#else
+#define CC_CAP_CHECK(c) __CPROVER_assert((c), "capacity bound of the check exceeded")
+#endif
 #define CC_MIN(a,b) ((b) < (a) ? (b) : (a))
 #define CC_MAX(a,b) ((a) < (b) ? (b) : (a))
 
@@ -74,19 +86,20 @@ static inline sv_t sv_substr(sv_t s, size_t pos, size_t n){
 #define CC_DEFINE_VEC(NAME,T,CAP) \
   typedef struct { T data[CAP]; size_t size; int iter; } NAME; \
   static inline NAME NAME##_new(void){ NAME v; v.size=0; v.iter=0; return v; } \
-  static inline size_t NAME##_size(const NAME* v){ return v->size; } \
+  static inline size_t NAME##_size(const NAME* v){ CC_SIZE_INV_ASSUME(v->size <= (CAP)); return v->size; } \
   static inline cc_bool NAME##_empty(const NAME* v){ return v->size==0; } \
   static inline void NAME##_push_back(NAME* v, T x){ \
     __CPROVER_assert(v->iter==0,"vector modified during range-for (iterator invalidation)"); \
-    __CPROVER_assert(v->size < (CAP),"capacity bound of the check exceeded"); \
+    CC_CAP_CHECK(v->size < (CAP)); \
     v->data[v->size]=x; v->size=v->size+1; } \
   static inline void NAME##_pop_back(NAME* v){ \
     __CPROVER_assert(v->iter==0,"vector modified during range-for (iterator invalidation)"); \
     __CPROVER_assert(v->size>0,"vector::pop_back on empty (UB)"); v->size=v->size-1; } \
   static inline void NAME##_clear(NAME* v){ \
     __CPROVER_assert(v->iter==0,"vector modified during range-for (iterator invalidation)"); v->size=0; } \
-  static inline T NAME##_at(const NAME* v, size_t i){ CC_THROWS(i<v->size,"vector::at throws std::out_of_range"); return v->data[i]; } \
-  static inline T NAME##_get(const NAME* v, size_t i){ __CPROVER_assert(i<v->size,"vector::operator[] index < size() (else UB)"); return v->data[i]; } \
+  /* model invariant size <= capacity (opt-in, -DCC_SIZE_INV): every operation that grows the vector asserts it, symbolic inputs are cut to it here */ \
+  static inline T NAME##_at(const NAME* v, size_t i){ CC_SIZE_INV_ASSUME(v->size <= (CAP)); CC_THROWS(i<v->size,"vector::at throws std::out_of_range"); return v->data[i]; } \
+  static inline T NAME##_get(const NAME* v, size_t i){ CC_SIZE_INV_ASSUME(v->size <= (CAP)); __CPROVER_assert(i<v->size,"vector::operator[] index < size() (else UB)"); return v->data[i]; } \
   static inline T NAME##_back(const NAME* v){ __CPROVER_assert(v->size>0,"vector::back on empty (UB)"); return v->data[v->size-1]; } \
   static inline T NAME##_front(const NAME* v){ __CPROVER_assert(v->size>0,"vector::front on empty (UB)"); return v->data[0]; } \
   static inline void NAME##_erase_at(NAME* v, size_t i){ \
@@ -96,7 +109,7 @@ static inline sv_t sv_substr(sv_t s, size_t pos, size_t n){
   static inline void NAME##_insert_at(NAME* v, size_t i, T x){ \
     __CPROVER_assert(v->iter==0,"vector modified during range-for (iterator invalidation)"); \
     __CPROVER_assert(i<=v->size,"vector::insert position valid (else UB)"); \
-    __CPROVER_assert(v->size < (CAP),"capacity bound of the check exceeded"); \
+    CC_CAP_CHECK(v->size < (CAP)); \
     for(size_t k_=(CAP);k_>0;--k_){ if(k_-1>i && k_-1<=v->size) v->data[k_-1]=v->data[k_-2]; } v->data[i]=x; v->size=v->size+1; } \
   static inline void NAME##_erase_range(NAME* v, size_t i, size_t j){ \
     __CPROVER_assert(v->iter==0,"vector modified during range-for (iterator invalidation)"); \
@@ -109,7 +122,7 @@ static inline sv_t sv_substr(sv_t s, size_t pos, size_t n){
     for(size_t k_=0;k_<(CAP);++k_){ if(k_>=what && k_+1<v->size) v->data[k_]=v->data[k_+1]; } \
     for(size_t k_=(CAP);k_>0;--k_){ if(k_-1>w_ && k_-1<v->size) v->data[k_-1]=v->data[k_-2]; } v->data[w_]=x_; } \
   static inline void NAME##_resize(NAME* v, size_t n, T x){ \
-    __CPROVER_assert(n <= (CAP),"capacity bound of the check exceeded"); \
+    CC_CAP_CHECK(n <= (CAP)); \
     for(size_t k_=0;k_<(CAP);++k_){ if(k_>=v->size && k_<n) v->data[k_]=x; } v->size=n; }
 
 /* ---------- vector<scalar> extras: find / reverse / (n,val) constructor ---------- */
@@ -119,7 +132,7 @@ static inline sv_t sv_substr(sv_t s, size_t pos, size_t n){
   static inline void NAME##_reverse(NAME* v){ NAME c_ = *v; \
     for(size_t k_=0;k_<(CAP);++k_){ if(k_<c_.size) v->data[k_]=c_.data[c_.size-1-k_]; } } \
   static inline NAME NAME##_filled(size_t n, T x){ NAME v; v.iter=0; \
-    __CPROVER_assert(n <= (CAP),"capacity bound of the check exceeded"); \
+    CC_CAP_CHECK(n <= (CAP)); \
     for(size_t k_=0;k_<(CAP);++k_){ v.data[k_]=x; } v.size=n; return v; }
 
 /* ---------- std::unordered_set<scalar> as duplicate-free array (iteration order = insertion order;
@@ -134,7 +147,7 @@ static inline sv_t sv_substr(sv_t s, size_t pos, size_t n){
   static inline cc_bool NAME##_contains(const NAME* v, T x){ return NAME##_find(v,x) != v->size; } \
   static inline void NAME##_insert(NAME* v, T x){ \
     __CPROVER_assert(v->iter==0,"unordered_set modified during range-for (iterator invalidation)"); \
-    if(!NAME##_contains(v,x)){ __CPROVER_assert(v->size < (CAP),"capacity bound of the check exceeded"); v->data[v->size]=x; v->size=v->size+1; } } \
+    if(!NAME##_contains(v,x)){ CC_CAP_CHECK(v->size < (CAP)); v->data[v->size]=x; v->size=v->size+1; } } \
   static inline void NAME##_erase(NAME* v, T x){ \
     __CPROVER_assert(v->iter==0,"unordered_set modified during range-for (iterator invalidation)"); \
     size_t i_ = NAME##_find(v,x); if(i_ != v->size){ \
